@@ -77,4 +77,174 @@ theorem gd_lazy_transform_from_rev (hm : m.WF) (s : GenN.ModArithLazy) (hs1 : s.
       rw [gx_mal_mul_scalar_eq s m _ s' hs1])
   exact h
 
+/-! ### the wrappers of src/util/ntt.rs -/
+
+/-- what the wrappers read from `NTTTables`, for a table of the model (`ntt_handler` = `NTTHandler::new(&ModArithLazy::new(&modulus))`) -/
+def gd_view (t : NTTTables) : GenD.NTTTablesView :=
+  { coeff_count_power := t.k, modulus := t.modulus, inv_degree_modulo := t.invDegree, root_powers := t.rootPowers.toList,
+    inv_root_powers := t.invRootPowers.toList, ntt_handler := GenN.mal_new t.modulus }
+
+theorem gd_set_spec (F : Nat → Nat) (a : List Nat) (j g : Nat) (a0 : Nat → Nat) (hj : j < g)
+    (ha : ∀ t, t < g → a[t]? = some (if t < j then F (a0 t) else a0 t))
+    (L : List Nat) (hLj : L[j]? = some (F (a0 j))) (hLo : ∀ t, t ≠ j → L[t]? = a[t]?) :
+    ∀ t, t < g → L[t]? = some (if t < j + 1 then F (a0 t) else a0 t) := by
+  intro t ht
+  by_cases hjt : t = j
+  · subst hjt; rw [hLj, if_pos (by omega)]
+  · rw [hLo t hjt, ha t ht]
+    by_cases h2 : t < j
+    · rw [if_pos h2, if_pos (by omega)]
+    · rw [if_neg h2, if_neg (by omega)]
+
+/-- the two final corrections as functions of one word -/
+def gd_corr4 (q tq x : Nat) : Nat := let x := if x ≥ tq then x - tq else x; if x ≥ q then x - q else x
+def gd_corr2 (q x : Nat) : Nat := if x ≥ q then x - q else x
+
+/-- the final correction of `ntt_negacyclic_harvey`: two guarded subtractions per word (no hypothesis: each `-=` is guarded) -/
+theorem gd_ntt_corr_loop (q tq g : Nat) (a0 : Nat → Nat) :
+    ∀ fuel j (a : List Nat), j + fuel = g → a.length = g →
+      (∀ t, t < g → a[t]? = some (if t < j then gd_corr4 q tq (a0 t) else a0 t)) →
+      ∃ a', ntt_negacyclic_harvey_loop1 q tq fuel j a = .ok a' ∧ a'.length = g ∧
+        ∀ t, t < g → a'[t]? = some (gd_corr4 q tq (a0 t)) := by
+  intro fuel
+  induction fuel with
+  | zero =>
+    intro j a hj hlen ha
+    exact ⟨a, rfl, hlen, fun t ht => by rw [ha t ht, if_pos (by omega)]⟩
+  | succ fuel ih =>
+    intro j a hj hlen ha
+    have hjg : j < g := by omega
+    have hja : j < a.length := by omega
+    have hx : a[j]? = some (a0 j) := by rw [ha j hjg, if_neg (Nat.lt_irrefl j)]
+    have e1 : idxG a j = .ok (a0 j) := gd_idxG_ok hx
+    have hset : ∀ v : Nat, idxG (a.set j v) j = .ok v := fun v => gd_idxG_ok (by rw [List.getElem?_set_self hja])
+    have hset2 : ∀ v w : Nat, setIdxG (a.set j v) j w = .ok ((a.set j v).set j w) := fun v w =>
+      gd_setIdxG_ok _ (by rw [List.length_set]; exact hja)
+    unfold ntt_negacyclic_harvey_loop1
+    simp only [e1, bind, Except.bind, pure, Except.pure]
+    by_cases c1 : a0 j ≥ tq
+    · simp only [c1, ↓reduceIte, gd_ckSub_ok c1, gd_setIdxG_ok _ hja, hset]
+      by_cases c2 : a0 j - tq ≥ q
+      · simp only [c2, ↓reduceIte, gd_ckSub_ok c2, hset2]
+        apply ih (j + 1) _ (by omega) (by simp [hlen])
+        exact gd_set_spec (gd_corr4 q tq) a j g a0 hjg ha _ (by simp [gd_corr4, hja, c1, c2]) (fun t ht => by
+          rw [List.getElem?_set_ne (Ne.symm ht), List.getElem?_set_ne (Ne.symm ht)])
+      · simp only [c2, ↓reduceIte]
+        apply ih (j + 1) _ (by omega) (by simp [hlen])
+        exact gd_set_spec (gd_corr4 q tq) a j g a0 hjg ha _ (by simp [gd_corr4, hja, c1, c2]) (fun t ht => by rw [List.getElem?_set_ne (Ne.symm ht)])
+    · simp only [c1, ↓reduceIte, e1]
+      by_cases c2 : a0 j ≥ q
+      · simp only [c2, ↓reduceIte, gd_ckSub_ok c2, gd_setIdxG_ok _ hja]
+        apply ih (j + 1) _ (by omega) (by simp [hlen])
+        exact gd_set_spec (gd_corr4 q tq) a j g a0 hjg ha _ (by simp [gd_corr4, hja, c1, c2]) (fun t ht => by rw [List.getElem?_set_ne (Ne.symm ht)])
+      · simp only [c2, ↓reduceIte]
+        apply ih (j + 1) _ (by omega) hlen
+        exact gd_set_spec (gd_corr4 q tq) a j g a0 hjg ha _ (by simp [gd_corr4, hx, c1, c2]) (fun t _ => rfl)
+
+/-- the final correction of `inverse_ntt_negacyclic_harvey`: one guarded subtraction per word -/
+theorem gd_intt_corr_loop (q g : Nat) (a0 : Nat → Nat) :
+    ∀ fuel j (a : List Nat), j + fuel = g → a.length = g →
+      (∀ t, t < g → a[t]? = some (if t < j then gd_corr2 q (a0 t) else a0 t)) →
+      ∃ a', inverse_ntt_negacyclic_harvey_loop1 q fuel j a = .ok a' ∧ a'.length = g ∧
+        ∀ t, t < g → a'[t]? = some (gd_corr2 q (a0 t)) := by
+  intro fuel
+  induction fuel with
+  | zero =>
+    intro j a hj hlen ha
+    exact ⟨a, rfl, hlen, fun t ht => by rw [ha t ht, if_pos (by omega)]⟩
+  | succ fuel ih =>
+    intro j a hj hlen ha
+    have hjg : j < g := by omega
+    have hja : j < a.length := by omega
+    have hx : a[j]? = some (a0 j) := by rw [ha j hjg, if_neg (Nat.lt_irrefl j)]
+    have e1 : idxG a j = .ok (a0 j) := gd_idxG_ok hx
+    unfold inverse_ntt_negacyclic_harvey_loop1
+    simp only [e1, bind, Except.bind, pure, Except.pure]
+    by_cases c2 : a0 j ≥ q
+    · simp only [c2, ↓reduceIte, gd_ckSub_ok c2, gd_setIdxG_ok _ hja]
+      apply ih (j + 1) _ (by omega) (by simp [hlen])
+      exact gd_set_spec (gd_corr2 q) a j g a0 hjg ha _ (by simp [gd_corr2, hja, c2]) (fun t ht => by rw [List.getElem?_set_ne (Ne.symm ht)])
+    · simp only [c2, ↓reduceIte]
+      apply ih (j + 1) _ (by omega) hlen
+      exact gd_set_spec (gd_corr2 q) a j g a0 hjg ha _ (by simp [gd_corr2, hx, c2]) (fun t _ => rfl)
+
+/-- a correction loop over a whole array = `Array.map` -/
+theorem gd_map_of_pointwise (F : Nat → Nat) (out : Array Nat) (a' : List Nat) (hlen : a'.length = out.size)
+    (hv : ∀ t, t < out.size → a'[t]? = some (F (arrFn out t))) : a' = (out.map F).toList := by
+  apply gd_ext
+  · rw [hlen]; simp
+  · intro p hp
+    rw [hv p (by omega), Array.toList_map, List.getElem?_map, gd_arrFn_get out p (by omega)]
+    rfl
+
+variable {t : NTTTables}
+
+theorem gd_k_lt (hw : t.WF) : t.k < 64 := by
+  have h := hw.klt
+  have : t.k + 1 < 62 := (Nat.pow_lt_pow_iff_right (by decide)).mp h
+  omega
+
+/-- `ntt_negacyclic_harvey_lazy` = `nttLazy` (inputs `< 4q`) -/
+theorem gd_ntt_lazy_eq (hw : t.WF) (a : List Nat) (hs : a.length = 2^t.k) (ha : ∀ x ∈ a, x < 4 * t.modulus.value) :
+    ntt_negacyclic_harvey_lazy (gd_view t) a = .ok (nttLazy t a.toArray).toList := by
+  have hm := hw.mwf
+  have e := gd_lazy_transform_to_rev hm (GenN.mal_new t.modulus) rfl (gx_mal_new_two _ (by have := hm.lt; omega)) t.k (gd_k_lt hw) a hs ha
+    t.rootPowers.toList (arrFn t.rootPowers) (fun j hj => gd_arrFn_get _ j (by rw [hw.rp_size]; exact hj)) (fun j h0 h1 => (hw.rp j h0 h1).1)
+  unfold ntt_negacyclic_harvey_lazy
+  show transform_to_rev (arith_ModArithLazy (GenN.mal_new t.modulus)) a t.k t.rootPowers.toList none = _
+  rw [e]; rfl
+
+/-- `ntt_negacyclic_harvey` = `ntt` (inputs `< 4q`) -/
+theorem gd_ntt_eq (hw : t.WF) (a : List Nat) (hs : a.length = 2^t.k) (ha : ∀ x ∈ a, x < 4 * t.modulus.value) :
+    ntt_negacyclic_harvey (gd_view t) a = .ok (ntt t a.toArray).toList := by
+  have hm := hw.mwf
+  have hq := hm.lt
+  have e1 := gd_ntt_lazy_eq hw a hs ha
+  have htq : ((t.modulus.value <<< 1) % B64) = 2 * t.modulus.value := by
+    have hB : B64 = 2^64 := by decide
+    rw [Nat.shiftLeft_eq, hB, Nat.pow_one, Nat.mod_eq_of_lt (by omega), Nat.mul_comm]
+  obtain ⟨a', e2, hlen, hv⟩ := gd_ntt_corr_loop t.modulus.value (2 * t.modulus.value) (nttLazy t a.toArray).size
+    (arrFn (nttLazy t a.toArray)) (nttLazy t a.toArray).size 0 (nttLazy t a.toArray).toList (by omega) (by simp)
+    (fun p hp => by rw [if_neg (by omega)]; exact gd_arrFn_get _ p hp)
+  have e3 : a' = (ntt t a.toArray).toList := by
+    exact gd_map_of_pointwise (gd_corr4 t.modulus.value (2 * t.modulus.value)) _ a' hlen hv
+  unfold ntt_negacyclic_harvey
+  have hl : (nttLazy t a.toArray).toList.length = (nttLazy t a.toArray).size := by simp
+  simp only [e1, bind, Except.bind]
+  show ntt_negacyclic_harvey_loop1 t.modulus.value ((t.modulus.value <<< 1) % B64) (nttLazy t a.toArray).toList.length 0
+      (nttLazy t a.toArray).toList = _
+  rw [htq, hl, e2, e3]
+
+/-- `inverse_ntt_negacyclic_harvey_lazy` = `inttLazy` (inputs `< 2q`) -/
+theorem gd_intt_lazy_eq (hw : t.WF) (a : List Nat) (hs : a.length = 2^t.k) (ha : ∀ x ∈ a, x < 2 * t.modulus.value) :
+    inverse_ntt_negacyclic_harvey_lazy (gd_view t) a = .ok (inttLazy t a.toArray).toList := by
+  have hm := hw.mwf
+  obtain ⟨ri, _, _, h3⟩ := hw.irp
+  have e := gd_lazy_transform_from_rev hm (GenN.mal_new t.modulus) rfl (gx_mal_new_two _ (by have := hm.lt; omega)) t.k (gd_k_lt hw) a hs ha
+    t.invRootPowers.toList (arrFn t.invRootPowers) (fun j hj => gd_arrFn_get _ j (by rw [hw.irp_size]; exact hj))
+    (fun j h0 h1 => (h3 j h0 h1).1) t.invDegree
+  unfold inverse_ntt_negacyclic_harvey_lazy
+  show transform_from_rev (arith_ModArithLazy (GenN.mal_new t.modulus)) a t.k t.invRootPowers.toList (some t.invDegree) = _
+  rw [e]
+  show Except.ok _ = Except.ok _
+  congr 1
+  unfold inttLazy transformFromRev
+  rw [Array.toList_map]
+
+/-- `inverse_ntt_negacyclic_harvey` = `intt` (inputs `< 2q`) -/
+theorem gd_intt_eq (hw : t.WF) (a : List Nat) (hs : a.length = 2^t.k) (ha : ∀ x ∈ a, x < 2 * t.modulus.value) :
+    inverse_ntt_negacyclic_harvey (gd_view t) a = .ok (intt t a.toArray).toList := by
+  have e1 := gd_intt_lazy_eq hw a hs ha
+  obtain ⟨a', e2, hlen, hv⟩ := gd_intt_corr_loop t.modulus.value (inttLazy t a.toArray).size
+    (arrFn (inttLazy t a.toArray)) (inttLazy t a.toArray).size 0 (inttLazy t a.toArray).toList (by omega) (by simp)
+    (fun p hp => by rw [if_neg (by omega)]; exact gd_arrFn_get _ p hp)
+  have e3 : a' = (intt t a.toArray).toList := by
+    exact gd_map_of_pointwise (gd_corr2 t.modulus.value) _ a' hlen hv
+  unfold inverse_ntt_negacyclic_harvey
+  have hl : (inttLazy t a.toArray).toList.length = (inttLazy t a.toArray).size := by simp
+  simp only [e1, bind, Except.bind]
+  show inverse_ntt_negacyclic_harvey_loop1 t.modulus.value (inttLazy t a.toArray).toList.length 0
+      (inttLazy t a.toArray).toList = _
+  rw [hl, e2, e3]
+
 end HC
